@@ -111,6 +111,7 @@ def all_variants():
             add("read_filter", "validation")
             add("codec_all", "late")
             if st == "simple":
+                add("append_ok_pon_ignored", "ok")
                 add("overwrite_simple", "validation")
             elif st == "hive":
                 add("overwrite_nopart", "validation")
@@ -241,6 +242,8 @@ def build(v, rng, sid):
         bad_rows = list(range(n1))
     elif kind == "append_ok":
         pass
+    elif kind == "append_ok_pon_ignored":
+        kw["partition_on"] = [rng.choice(["a", "c"])]      # partition_on is ignored for file_scheme='simple' (documented)
     else:
         raise KeyError(kind)
     prior = None
@@ -334,9 +337,25 @@ def run_scenario(arg):
         os.makedirs(os.path.join(base, "w"))
         simple = sc["scheme"] == "simple"
         pristine = os.path.join(base, "p", "ds")
-        create(pristine, sc)
-        pf0 = ParquetFile(pristine)
-        old_vals = dsfs.values(pf0.to_pandas())
+        try:
+            create(pristine, sc)
+            pf0 = ParquetFile(pristine)
+            old_vals = dsfs.values(pf0.to_pandas())
+            want = len(sc["frame0"][0][2]) + (len(sc["prior"]["frame"][0][2]) if sc.get("prior") else 0)
+            if (len(old_vals[0][1]) if old_vals else 0) != want:
+                raise RuntimeError("setup: the existing dataset holds %s rows, expected %d" % (len(old_vals[0][1]) if old_vals else 0, want))
+        except BaseException as e:               # noqa
+            if not sc.get("prior"):
+                raise
+            # the successful append used to build the existing state is itself broken on this tree (C07/C19's subject):
+            # fall back to the state without it, so that this check keeps looking at refusals
+            out["setup_fallback"] = "%s: %s" % (type(e).__name__, str(e)[:120])
+            shutil.rmtree(os.path.join(base, "p"), ignore_errors=True)
+            os.makedirs(os.path.join(base, "p"))
+            sc = dict(sc, prior=None)
+            create(pristine, sc)
+            pf0 = ParquetFile(pristine)
+            old_vals = dsfs.values(pf0.to_pandas())
         refs = [] if simple else dsfs.refs_of(pf0)
         out["dset"] = [pf0.file_scheme, 1 if pf0.fn.endswith("_metadata") else 0, [c.encode() for c in pf0.cats],
                        [c.encode() for c in pf0.columns], [r.encode() for r in refs]]
@@ -473,6 +492,8 @@ def run(ctx):
         ctx.count("state", "%s/%d" % (v["state"], v["nrg"]))
         ctx.count("kind", v["kind"])
         ctx.count("expect", v["expect"])
+        if res.get("setup_fallback"):
+            ctx.count("setup_fallback", res["setup_fallback"][:60])
         ctx.count("position", "%s/%s" % (v.get("pos"), v.get("rg")))
         ctx.count("outcome", "%s/%s/%s" % (v["expect"], "raised" if res["raised"] else "returned", res["read"]))
         wrote = any(c[0] not in ("mkdir", "close") for c in res["trace"])
@@ -504,7 +525,7 @@ def run(ctx):
                 cmds.append(("restoring", res["f0"], L.sx_fops(res["ptrace"])))
                 meta.append(("restoring", short, res, sc))
             firstw = [o for o in res["ptrace"] if o[0] == "pwrite"]
-            if firstw:
+            if firstw and not res["raised"]:       # a successful append: every recorded write belongs to the new row groups / footer
                 cmds.append(("foot_start", res["f0"]))
                 meta.append(("foot_start", short, res, sc))
     pq = C.Pqref()
